@@ -36,6 +36,7 @@ type agent struct {
 	st       agState
 	events   []string
 	hasID    bool
+	inNext   bool // its polling thread is inside next (and stays there in these sequences)
 }
 
 type model struct {
@@ -113,7 +114,7 @@ func (m *model) allowed(sym string) bool {
 	if a == nil {
 		return false
 	}
-	if a.st == agParked {
+	if a.inNext {
 		// the extension's polling thread is inside next; another thread of it may still report an error
 		return len(p) > 1 && (p[1] == "initerr" || p[1] == "exiterr")
 	}
@@ -178,6 +179,7 @@ func (m *model) apply(sym string) pred {
 		switch a.st {
 		case agRegistered:
 			a.st = agParked
+			a.inNext = true
 			return pred{blocks: true}
 		default:
 			return refuse("Extension.InvalidExtensionState")
@@ -360,7 +362,7 @@ func runSeq(nExt int, withInt bool, seq []string) (func(), *stack.Config) {
 			if before != nil {
 				stName = fmt.Sprint(before.st)
 			}
-			wasParked := before != nil && before.st == agParked
+			wasParked := before != nil && before.inNext
 			p := m.apply(sym)
 			var r *stack.Call
 			var blocked bool
